@@ -169,6 +169,6 @@ Lemma count_window_val : count_window = 756%nat /\ length (filter (fun s => both
 Proof. vm_compute. split; reflexivity. Qed.
 
 (* serial execution (no interleaving: execute() has no await, WriteProto.pin_no_await): at most one succeeds *)
-Lemma serial_at_most_one :
+Lemma serial_two_writers_example :
   both_succeed (run6 (repeat false 6 ++ repeat true 6)) = false /\ both_succeed (run6 (repeat true 6 ++ repeat false 6)) = false.
 Proof. vm_compute. split; reflexivity. Qed.
